@@ -125,7 +125,7 @@ def plan(tier, seed, nproc, scale):
     shards = nproc if tier == "quick" else nproc * 4
     n = int((60000 if tier == "quick" else 1200000) * scale)
     specs = [{"kind": "random", "seed": "%d/%d" % (seed, i), "n": n // shards, "shard": i, "shards": shards} for i in range(shards)]
-    specs += [{"kind": "threads", "seed": "%d/t%d" % (seed, i), "runs": 3 if tier == "quick" else 40} for i in range(4 if tier == "quick" else shards)]
+    specs += [{"kind": "threads", "seed": "%d/t%d" % (seed, i), "runs": 3 if tier == "quick" else 12} for i in range(4 if tier == "quick" else nproc)]
     return specs
 
 
